@@ -4,6 +4,7 @@
 import DDV.Extracted.Tables
 import DDV.Gen.Pipeline
 import DDV.Gen.Lemmas.Tree
+import DDV.Gen.Lemmas.Names
 
 namespace DDV.Props.C14
 open DDV.Gen
@@ -16,6 +17,59 @@ theorem pass_order_matches_model : DDV.Extracted.passOrder = DDV.Gen.passOrder :
 
 theorem refs_validated_before_reset_values :
     (DDV.Extracted.passOrder.idxOf "refs_validated") < (DDV.Extracted.passOrder.idxOf "reset_values_converted") := by
+  decide
+
+/-! ### Names -/
+
+/-- The property's collision-freeness, on the (already normalised) names: over all objects of the
+    tree at any depth, no two objects with the same name and cfg; within one field set no two fields
+    with the same name; over the whole definition no two generated enums with the same name and cfg;
+    within one enum no two variants with the same name and cfg. -/
+structure NamesOk (d : Device) : Prop where
+  objects : ((allObjects d.objects).map objKey).Nodup
+  fields : ∀ o ∈ allObjects d.objects, ∀ fs ∈ o.fieldSets, (fs.map (·.name)).Nodup
+  enums : ((enumsOfObjs (allObjects d.objects)).map enumKey).Nodup
+  variants : ∀ e ∈ enumsOfObjs (allObjects d.objects), (e.variants.map variantKey).Nodup
+
+/-- **Names, acceptance.** `names_unique` (run on the normalised names) accepts iff the definition
+    is collision free in the sense above; since it returns `Except`, a rejection is a reported
+    error, never a panic. -/
+theorem names_accept_iff (d : Device) : isOk (namesUnique d) ↔ NamesOk d := by
+  rw [namesUnique_ok_iff, ObjsOk_iff]
+  simp only [List.not_mem_nil, not_false_eq_true, implies_true, true_and]
+  exact ⟨fun ⟨a, b, c, e⟩ => ⟨a, b, c, e⟩, fun h => ⟨h.objects, h.fields, h.enums, h.variants⟩⟩
+
+/-- … and it leaves the definition unchanged. -/
+theorem names_unique_is_a_check (d d' : Device) (h : namesUnique d = .ok d') : d' = d := by
+  unfold namesUnique at h
+  cases hh : (allObjects d.objects).foldlM namesStep ({} : Seen) with
+  | error e => rw [hh] at h; cases h
+  | ok s => rw [hh] at h; exact (Except.ok.inj h).symm
+
+/-- Non-vacuity: two registers `A`, `B`, the first with fields `x`, `y` and an inline enum. -/
+example : NamesOk { config := {}, objects := [
+    .register { name := "A", access := .rw, byteOrder := none, bitOrder := .lsb0, allowBitOverlap := false,
+                allowAddressOverlap := false, address := 0, sizeBits := 8, reset := none, repeat_ := none,
+                fields := [{ name := "x", access := .rw, base := .uint, start := 0, stop := 2,
+                             conv := some (.enum { name := "E", variants := [{ name := "P", value := .unspecified },
+                                                                                { name := "Q", value := .default }] } false) },
+                           { name := "y", access := .rw, base := .uint, start := 2, stop := 4 }] },
+    .register { name := "B", access := .rw, byteOrder := none, bitOrder := .lsb0, allowBitOverlap := false,
+                allowAddressOverlap := false, address := 1, sizeBits := 8, reset := none, repeat_ := none,
+                fields := [] }] } :=
+  (names_accept_iff _).1 ⟨_, rfl⟩
+
+/-- … and the same with the second register also called `A` is rejected. -/
+example : ¬ NamesOk { config := {}, objects := [
+    .register { name := "A", access := .rw, byteOrder := none, bitOrder := .lsb0, allowBitOverlap := false,
+                allowAddressOverlap := false, address := 0, sizeBits := 8, reset := none, repeat_ := none, fields := [] },
+    .block { name := "Blk", addressOffset := 0, repeat_ := none } [
+      .command { name := "A", address := 1, byteOrder := none, bitOrder := .lsb0, allowBitOverlap := false,
+                 allowAddressOverlap := false, sizeBitsIn := 0, sizeBitsOut := 0, repeat_ := none,
+                 inFields := [], outFields := [] }]] } := by
+  intro h
+  have := h.objects
+  revert this
   decide
 
 /-! ### Refs -/
